@@ -723,6 +723,31 @@ def check_cert(chk, cases, impl, keys, samples):
         npts, nwts, na, nb = normalise_rule(inner, res['weights'], a, b)
         tols = moment_tolerances(npts, nwts, na, nb, K, position_scale(a, b))
         mcases.append((2, [npts, nwts, na, nb, tols])); midx.append((i, K, tols))
+    # --- the models of the two rules that are proved (phase 3): Simpson weights (odd number of points) and the effective nodal
+    #     weights of the hierarchical Lagrange grid (knot selection, exact hierarchisation, formal integrals of the basis functions)
+    wcases, widx = [], []
+    for i, c in enumerate(cases):
+        st, r = impl[i]
+        if st != 'ok' or r[0] != 'ok':
+            continue
+        n = len(c['dim']['pts'])
+        xs = [F(x) for x in c['dim']['pts']]
+        if c['family'] == 'simpson' and c['boundary'] and n % 2 == 1 and n >= 3:
+            wcases.append((5, [xs])); widx.append(i)
+        elif c['family'] == 'lagrange' and n <= 34:
+            wcases.append((4, [c['par']['p'], c['boundary'], c['mb'], F(c['dim']['a']), F(c['dim']['b']), xs, c['dim']['levels']]))
+            widx.append(i)
+    for i, mr in zip(widx, run_model(9, wcases)):
+        c = cases[i]; res = impl[i][1][1]
+        chk.count('cert:%s weights compared with the model' % c['family'])
+        a, b = F(c['dim']['a']), F(c['dim']['b'])
+        tol = TOL_CERT * position_scale(a, b) * (b - a)
+        mw = None if (mr == [0] or sx.is_err(mr)) else [sx.q(x) for x in mr[1]]
+        if mw is None or len(mw) != len(res['weights']) or any(abs(x - y) > tol for x, y in zip(res['weights'], mw)):
+            j = None if mw is None or len(mw) != len(res['weights']) else next(j for j, (x, y) in enumerate(zip(res['weights'], mw)) if abs(x - y) > tol)
+            chk.violation('corr:C09/%s-weights' % c['family'], 'rule-weights-differ', cert_sig(c), c,
+                          dict(index=j, impl=str([float(x) for x in res['weights']])[:300],
+                               model=str(None if mw is None else [float(x) for x in mw])[:300]), failing_input=False)
     mres = run_model(9, mcases)
     for (i, K, tols), mr in zip(midx, mres):
         c = cases[i]; res = impl[i][1][1]
